@@ -787,6 +787,7 @@ func (pm *ProtocolManager) handleTxsMsg(msg *p2p.Msg) error {
 			continue
 		}
 
+		tx := tx
 		go func() {
 			// 判断接收到的交易是否在本分支已经存在
 			currentBlock := pm.chain.CurrentBlock()
